@@ -1,5 +1,6 @@
 SPECIFICATION JSpec
 CONSTANT MaxN = 5
+CONSTANT Small = FALSE
 CONSTANT Rich = TRUE
 INVARIANT Report
 CHECK_DEADLOCK FALSE
